@@ -269,7 +269,9 @@ class GeneralizedLinearEstimator(LinearModel):
             Contain the target values for each sample.
         """
         if isinstance(self.datafit, (Logistic, QuadraticSVC)):
-            scores = self._decision_function(X).ravel()
+            scores = self._decision_function(X)
+            if scores.ndim == 2 and scores.shape[1] == 1:
+                scores = scores.ravel()
             if len(scores.shape) == 1:
                 indices = (scores > 0).astype(int)
             else:
